@@ -40,7 +40,7 @@ REQUIRED = {
         "exodus_tri3": 5, "exodus_tri6": 5, "exodus_unnamed_sets": 3, "exodus_named_sets": 3, "exodus_no_elem_map": 3, "exodus_elem_map": 3,
         "exodus_multi_block": 5, "exodus_tri6_midside_checked": 100, "read_members_compared": 200, "json_files": 5,
         "structured_meshes": 10, "scale_tiny_meshes": 20, "scale_large_meshes": 20, "scale_mid_meshes": 20, "offset_meshes": 15,
-        "class:structured": 5, "merge_operand_checked_numpy_backed": 20, "merge_repeated_with_same_operands": 10, "class:elevate": 5, "class:edges": 5, "class:combine": 5, "class:exodus": 5, "class:json": 3,
+        "class:structured": 5, "merge_operand_checked_numpy_backed": 20, "exodus_files_with_10_or_more_nodesets": 4, "exodus_files_with_10_or_more_sidesets": 4, "edges_meshes_over_1365_triangles": 2, "merge_repeated_with_same_operands": 10, "class:elevate": 5, "class:edges": 5, "class:combine": 5, "class:exodus": 5, "class:json": 3,
     },
 }
 WATCHDOG_S = {"quick": 1800, "thorough": 4 * 3600}
@@ -298,7 +298,15 @@ def run_edges(case, res, rng):
     from vlib.oracles import c13_validate as V
     jnp = _jnp()
     i = case["i"]
-    if i % 4 == 3:
+    if i % 16 == 7:
+        nx, ny = [(30, 26), (41, 35), (55, 52), (28, 27)][(i // 16) % 4]      # 1450 / 2720 / 5508 / 1404 triangles
+        m = Mesh.construct_structured_mesh(nx, ny, [0.0, 1.0], [0.0, float(rng.uniform(0.3, 2))])
+        pts, tri = onp.asarray(m.coords), onp.asarray(m.conns)
+        tri = tri[rng.permutation(len(tri))]
+        tri = onp.array([onp.roll(r, int(k)) for r, k in zip(tri, rng.integers(0, 3, size=len(tri)))])
+        tag = "structured-large %dx%d shuffled" % (nx, ny)
+        res.count("edges_meshes_over_1365_triangles")
+    elif i % 4 == 3:
         nx, ny = int(rng.integers(2, 12)), int(rng.integers(2, 12))
         m = Mesh.construct_structured_mesh(nx, ny, [0.0, 1.0], [0.0, float(rng.uniform(0.3, 2))])
         pts, tri = onp.asarray(m.coords), onp.asarray(m.conns)
@@ -534,11 +542,17 @@ def run_exodus(case, res, rng, tmpdir):
     has_ss = (i % 7 != 5)
     ns = ss = []
     if has_ns:
-        nn = _name_list(rng, name_mode, "ns", int(rng.integers(1, 4)))
+        many = (i % 8 == 3)      # every 8th file: two-digit numbers of sets (record names ..._ns10, _ns11 sort differently as strings)
+        nn = _name_list(rng, name_mode, "ns", int(rng.integers(10, 16)) if many else int(rng.integers(1, 4)))
+        if many:
+            res.count("exodus_files_with_10_or_more_nodesets")
         d = G.random_node_sets(rng, len(coords), ["k%d" % j for j in range(len(nn))])
         ns = [(nn[j], d["k%d" % j]) for j in range(len(nn))]
     if has_ss:
-        sn = _name_list(rng, name_mode, "ss", int(rng.integers(1, 4)))
+        manys = (i % 8 == 5)
+        sn = _name_list(rng, name_mode, "ss", int(rng.integers(10, 14)) if manys else int(rng.integers(1, 4)))
+        if manys:
+            res.count("exodus_files_with_10_or_more_sidesets")
         d = G.random_side_sets(rng, tri, ["k%d" % j for j in range(len(sn))])
         ss = [(sn[j], d["k%d" % j]) for j in range(len(sn))]
     with_map = (i // 3) % 2 == 0
